@@ -24,6 +24,16 @@ from uberjob._util.retry import create_retry, identity  # noqa: E402
 
 CUSTOM = os.environ.get("XH_CUSTOM", "0") == "1"
 
+try:  # CrossHair 0.0.110 makes functools.lru_cache a no-op under tracing; uberjob's caches (if any) are keyed by concrete
+    # function objects here, so the real behaviour is wanted: take that patch out again
+    import crosshair.core_and_libs  # noqa: F401
+    from crosshair import core as _xc
+    from functools import _lru_cache_wrapper
+
+    _xc._PATCH_REGISTRATIONS.pop(_lru_cache_wrapper.__call__, None)
+except Exception:  # pragma: no cover - plain concrete run
+    pass
+
 
 class Flaky(Exception):
     def __init__(self, op, attempt):
@@ -193,8 +203,21 @@ def c10_run(j: int, p1: bool, p2: bool, t0: int, t1: int, t2: int) -> bool:
     seen = []
 
     def custom(f):
+        # a decorator with PER-DECORATION state (n attempts in the lifetime of one decoration): uberjob decorates once per call /
+        # store operation / modified-time query, so every one of them must get a decoration -- and a budget -- of its own
         seen.append(f)
-        return create_retry(n)(f)
+        budget = [n]
+
+        def wrapper(*a, **k):
+            while True:
+                try:
+                    return f(*a, **k)
+                except Flaky:
+                    budget[0] -= 1
+                    if budget[0] <= 0:
+                        raise
+
+        return wrapper
 
     retry_arg = custom if CUSTOM else n
     try:
